@@ -566,3 +566,56 @@ def check_round_protocol(ck, P, rid):
                 ck.violated(rid, inst, a.where, "a path leaves the step after adding %s to the total without clearing it" % etxt, cfg)
             else:
                 ck.holds(rid, inst, clears[0].where, "%s is cleared on every path after it was added to the total" % etxt, cfg)
+
+
+def check_round_completion_notice(ck, P, rid):
+    """The rank that opens GVT rounds (the one whose guard lets it broadcast GVT_START) waits, before opening the next round, for one
+    GVT_DONE notice from every rank (gvt_nodes is raised by n_nodes and lowered by each notice).  Every rank must therefore send its
+    notice to THAT rank: sent anywhere else, the opener's counter never returns to zero and no further round is opened."""
+    from . import ceval
+    cfg = P.config
+    inst = "done-notice@gvt_node_phase_run"
+    f = P.fn("gvt_node_phase_run")
+    g = P.fn("gvt_phase_run")
+    DONE = P.enum_const("MSG_CTRL_GVT_DONE")
+    START = P.enum_const("MSG_CTRL_GVT_START")
+    sends = []
+    for fn in Q.with_helpers(P, f) if hasattr(Q, "with_helpers") else [f]:
+        for c in fn.calls("mpi_control_msg_send_to"):
+            a = X.callee_args(c)
+            if len(a) == 2 and X.const_int(a[0]) == DONE:
+                sends.append((fn, c))
+    starts = [c for c in g.calls("mpi_control_msg_broadcast") if X.callee_args(c) and X.const_int(X.callee_args(c)[0]) == START]
+    if len(sends) != 1 or len(starts) != 1:
+        ck.inconclusive(rid, inst, f.where, "the GVT_DONE notice / the GVT_START broadcast were not recognised (%d, %d)" % (len(sends), len(starts)), cfg)
+        return
+    # ranks that can open a round: the guards on the way to the broadcast, evaluated on (nid, rid)
+    paths, complete = Q.path_conditions(g, starts[0])
+    openers = set()
+    for k in range(0, 4):
+        for conds in paths:
+            ok = True
+            for core, t in conds:
+                v = ceval.ev(core, {"nid": k, "rid": 0})
+                if v is not None and bool(v) != t:
+                    ok = False
+            if ok:
+                openers.add(k)
+    if not complete or len(openers) != 1:
+        ck.inconclusive(rid, inst, starts[0].where, "the set of ranks that may open a round is not a single rank (%s)" % sorted(openers), cfg)
+        return
+    opener = next(iter(openers))
+    fn, c = sends[0]
+    dest = X.callee_args(c)[1]
+    bad = None
+    for k in range(0, 4):
+        v = ceval.ev(dest, {"nid": k, "rid": 0, "n_nodes": 4})
+        if v is None:
+            ck.inconclusive(rid, inst, c.where, "destination `%s` of the GVT_DONE notice is not a function of the rank" % X.show(dest)[:40], cfg)
+            return
+        if v != opener and bad is None:
+            bad = (k, v)
+    if bad:
+        ck.violated(rid, inst, c.where, "rank %d sends its GVT_DONE notice to rank %d, but rounds are opened by rank %d, which waits for one notice per rank before the next round: with more than one rank its counter never returns to zero and no further GVT is computed (no fossil collection, no termination)" % (bad[0], bad[1], opener), cfg)
+    else:
+        ck.holds(rid, inst, c.where, "every rank sends its GVT_DONE notice to rank %d, the only rank that opens rounds" % opener, cfg)
